@@ -14,7 +14,7 @@ Rec(k, node, st, en, tot, dl) ==
    sp |-> IF node \in {"src", "single"} THEN "ps" ELSE "",
    dp |-> IF node \in {"dst", "single"} THEN "pd" ELSE "",
    sns |-> IF node \in {"src", "single"} THEN "ns" ELSE "", dns |-> IF node \in {"dst", "single"} THEN "nd" ELSE "",
-   ftype |-> IF node = "single" THEN 1 ELSE 2, egress |-> 0, ingress |-> 0, prio |-> 0,
+   ftype |-> IF node = "single" THEN 1 ELSE 2, egress |-> 0, ingress |-> 0, prio |-> 0, cip |-> <<0, 0, 0, 0>>,
    start |-> st, end |-> en,
    vals |-> <<tot, dl, 2 * tot, tot, dl, 3 * tot>>,      \* different multipliers per element
    reason |-> 2]
